@@ -12,6 +12,10 @@ for ac, nus in ((1, 1), (2, 1), (2, 2), (3, 2)):
        bound=f"{ac} requested field(s), {nus} user-defined symbol(s) + the 9 predefined ones, names <= 2 characters",
        overflow=True, unwind=11, cex_unwind=14, defines=["H4V_SMALL_STR", "NMLEN=2", f"SF_AC={ac}", f"SF_NUSYM={nus}"],
        timeout=200, tier="quick" if ac < 3 else "thorough", **VSF)
+# scenario "user-defined fields only" (the predefined-field path is not reached): separates the two size-check paths
+ob("VSsetfields_ac2_u2_user", ["C07", "C20"], entry="h_VSsetfields_new", enforce="VSsetfields", mode="bounded",
+   bound="2 requested fields, both user-defined; 2 user symbols, names <= 2 characters", overflow=True, unwind=11, cex_unwind=14,
+   defines=["H4V_SMALL_STR", "NMLEN=2", "SF_AC=2", "SF_NUSYM=2", "SF_USERONLY"], timeout=200, **VSF)
 ob("VSsetfields_gate", ["C07", "C20"], entry="h_VSsetfields_gate", enforce="VSsetfields", overflow=True,
    defines=["H4V_SMALL_STR", "NMLEN=2"], unwind=1, cex_unwind=2, timeout=200, **VSF)  # unwind 1: the field loops are unreachable (unwinding assertions on)
 ob("VSsetfields_badkey", ["C07"], entry="h_VSsetfields_badkey", enforce="VSsetfields", mode="proved-finite",
@@ -25,13 +29,23 @@ VRL = dict(unit="vrw_u.c", file="hdf/src/vrw.c", overflow=True, unwind=6, cex_un
            trusted=["Hread/Hwrite: log (position, length), whole transfers or FAIL (nondeterministic call; beyond the element; beyond 2^31-1)",
                     "DFKconvert: logs its arguments, checks both footprints (user buffer, transfer buffer)",
                     "Hseek/Hinquire: ghost position; vexistvs: ghost answer; HAatom_*: harness-built instance (constants)"])
-LAY = {1: "2 fields 3xuint8+2xuint16 (7-byte records)", 2: "1 field 3xint32 (12-byte records)",
-       3: "2 fields uint8+int32 (5-byte records)", 4: "1 field uint8 (1-byte records)"}
+LAY = {1: "2 fields 4xuint8+2xuint16 (8-byte records)", 2: "1 field 4xint32 (16-byte records)",
+       3: "2 fields 1xuint16+3xuint16 (8-byte records)", 4: "1 field uint8 (1-byte records)", 5: "2 fields 3xuint8+2xuint16 (7-byte records)"}
 RLS = {0: "all fields", 1: "subset {f1}", 2: "permutation {f1,f0}", 3: "subset {f0}"}
 for vl in (1, 2, 3):
     ob(f"VSwrite_book_L{vl}", ["C07", "C20"], entry="h_VSwrite_log", enforce="VSwrite",
-       defines=["VRW_LOG", f"VL={vl}"], bound=f"layout {LAY[vl]}; FULL_INTERLACE; nelt up to 4 transfer-buffer chunks (real VDATA_BUFFER_MAX)", **VRL)
+       defines=["VRW_LOG", f"VL={vl}"], bound=f"layout {LAY[vl]}; FULL_INTERLACE; nelt up to 3 transfer-buffer chunks (real VDATA_BUFFER_MAX)", **VRL)
 for vl, rl in ((1, 0), (1, 1), (1, 2), (2, 0), (3, 1), (3, 3)):
     ob(f"VSread_chunk_L{vl}_R{rl}", ["C07"], entry="h_VSread_log", enforce="VSread",
        defines=["VRW_LOG", f"VL={vl}", f"RL={rl}"],
-       bound=f"layout {LAY[vl]}, read list {RLS[rl]}; FULL_INTERLACE; nelt up to 4 transfer-buffer chunks (real VDATA_BUFFER_MAX)", **VRL)
+       bound=f"layout {LAY[vl]}, read list {RLS[rl]}; FULL_INTERLACE; nelt up to 3 transfer-buffer chunks (real VDATA_BUFFER_MAX)", **VRL)
+# a negative record count (documented result: FAIL or the number of records read)
+ob("VSread_negcount", ["C07"], entry="h_VSread_log", enforce="VSread", defines=["VRW_LOG", "VL=1", "RL=0", "VR_NEG"],
+   bound="layout 1; -1000 <= nelt < 0", **VRL)
+# C20: byte counts beyond int32 (nelt*ivsize, (p+nelt)*ivsize): refused, no wrap-around
+ob("VSwrite_limit_L1", ["C20", "C07"], entry="h_VSwrite_log", enforce="VSwrite", defines=["VRW_LOG", "VL=1", "VW_LIMIT"],
+   bound="layout 1 (8-byte records); any nelt with (p+nelt)*8 > 2^31-1", **VRL)
+ob("VSwrite_limit_L4", ["C20", "C07"], entry="h_VSwrite_log", enforce="VSwrite", defines=["VRW_LOG", "VL=4", "VW_LIMIT"],
+   bound="layout 4 (1-byte records); any nelt with p+nelt > 2^31-1", **VRL)
+ob("VSread_limit_L1", ["C20", "C07"], entry="h_VSread_log", enforce="VSread", defines=["VRW_LOG", "VL=1", "RL=1", "VR_LIMIT"],
+   bound="layout 1 (8-byte records); any nelt with nelt*8 > 2^31-1", **VRL)
